@@ -63,7 +63,7 @@ async def _transaction(p, i, cfg, log):
 def s1_transactions(src, ntxn, fault_kinds, max_fault_requests, max_faults, kill, timing=False):
     cfgs = []
     for i in range(ntxn):
-        cfgs.append({"end": ["commit", "abort"][src.choice(f"end{i}", 2)], "n0": 1 + src.choice(f"n0_{i}", 2),
+        cfgs.append({"end": ["commit", "abort"][src.choice(f"end{i}", 2)], "n0": src.choice(f"n0_{i}", 3),
                      "n1": src.choice(f"n1_{i}", 2), "offsets": src.flag(f"offsets{i}")})
     for c in cfgs:
         c["send_gap"] = [0.0, 0.004][src.choice(f"send_gap{cfgs.index(c)}", 2)] if timing else 0.0
@@ -75,6 +75,9 @@ def s1_transactions(src, ntxn, fault_kinds, max_fault_requests, max_faults, kill
     cluster.marker_delay = marker_delay
     cluster.blackhole = set()
     cluster.add_partitions_delay = [0.0, 0.02][src.choice("add_partitions_delay", 2)] if timing else 0.0
+    if "produce_reject" in fault_kinds:
+        # one leader answers late: its reply is still outstanding when the other leader's verdict arrives
+        cluster.produce_delay = {[0, 1][src.choice("slow_leader", 2)]: 0.05}
     faults = txnsim.TxnFaults(src, fault_kinds, max_fault_requests, max_faults)
     cluster.fault_fn = faults
     txns = []
@@ -176,8 +179,19 @@ def s1_transactions(src, ntxn, fault_kinds, max_fault_requests, max_faults, kill
             src.check(t["outcome"] == ("committed" if t["want"] == "commit" else "aborted"),
                       f"transaction {t['i']} ended as {t['outcome']}, requested {t['want']}", **info)
     if last_committed_offsets is not None:
-        later_aborted = False
         src.check(grp is not None, "offsets of a committed transaction are not visible in the group", **info)
+        # the group's offset is that of the last transaction with offsets whose commit_transaction() returned
+        # (unless a later transaction carrying offsets was cut short by a kill: either outcome is possible then)
+        after = False
+        ambiguous = False
+        for t in txns:
+            if t["offsets"] == last_committed_offsets and t["outcome"] == "committed":
+                after = True
+            elif after and t["offsets"] is not None and t["outcome"] == "killed":
+                ambiguous = True
+        if not ambiguous:
+            src.check(grp == last_committed_offsets,
+                      f"the group's committed offset is {grp}, not the {last_committed_offsets} of the last transaction whose commit_transaction() returned", **info)
     src.check(not cluster.problems, "transactional protocol order violated: " + "; ".join(cluster.problems[:2]), **info)
     # open transactions left behind (LSO stuck) by a producer that is still alive
     if not res.get("killed_in") and all(t["outcome"] in ("committed", "aborted", "aborted after error") for t in txns):
@@ -189,7 +203,7 @@ def harnesses(tier):
     q = tier == "quick"
     if q:
         confs = [(1, ("retriable",), 8, 1, False, False), (2, ("abortable",), 6, 1, False, False), (2, (), 0, 0, True, False),
-                 (2, (), 0, 0, False, True), (2, ("retriable",), 12, 1, False, False)]
+                 (2, (), 0, 0, False, True), (2, ("retriable",), 12, 1, False, False), (1, ("produce_reject",), 8, 1, False, False)]
     else:
         confs = [(2, ("retriable",), 12, 2, False, False), (2, ("abortable", "fatal"), 8, 1, False, False),
                  (2, ("retriable",), 6, 1, True, False), (2, ("retriable",), 6, 1, False, True)]
